@@ -8,7 +8,7 @@ From Coq Require Import Reals ZArith List Bool.
 From Flocq Require Import Core IEEE754.BinarySingleNaN IEEE754.Binary IEEE754.Bits.
 From Common Require Import CxxSem.
 From C07 Require Import Model ModelR ModelB32 Sem ProofsGen.
-From C07.gen Require Import GenMath SimdFacts.
+From C07.gen Require Import GenMath SimdFacts DistFacts.
 Import ListNotations.
 Local Open Scope R_scope.
 
@@ -132,3 +132,27 @@ Theorem gen_rsqrt_simd_is_model : forall rcp_est rsqrt_est x,
   denote rcp_est rsqrt_est rsqrt_simd_ast x = rsqrt_simd rsqrt_est x.
 Proof. exact gen_rsqrt_simd. Qed.
 Print Assumptions gen_rsqrt_simd_is_model.
+
+(* ---- float distributions of utility/random.h (trees from props/C07/distfacts.py): the constructor's diff and
+   operator()'s return expression denote, for ANY rounding rn, the model's order (scale * rng()) * diff + lower
+   with diff = upper - lower; uniform_real_distribution<float>::operator() denotes the model's
+   l + ((g() - min) / range) * (u - l).  The range theorems of Properties.v are about exactly these. ---- *)
+Theorem gen_dist_diff_is_model : forall rn lower upper d k,
+  ddenote rn lower upper d k dist_diff_ast = rn (upper - lower).
+Proof. exact gen_dist_diff. Qed.
+Print Assumptions gen_dist_diff_is_model.
+
+Theorem gen_dist_return_is_model : forall rn lower upper diff k,
+  ddenote rn lower upper diff k dist_return_ast = rn (rn (rn (bpow radix2 (-32) * rn (IZR k)) * diff) + lower).
+Proof. exact gen_dist_return. Qed.
+Print Assumptions gen_dist_return_is_model.
+
+Theorem gen_pcg_float_distribution_is_model : forall rn lower upper k,
+  ddenote rn lower upper (ddenote rn lower upper 0 k dist_diff_ast) k dist_return_ast = pcg_float rn lower upper k.
+Proof. exact gen_dist. Qed.
+Print Assumptions gen_pcg_float_distribution_is_model.
+
+Theorem gen_uniform_real_distribution_is_model : forall rn l u k,
+  ddenote rn l u 0 k uniform_return_ast = uniform_real rn l u k.
+Proof. exact gen_uniform. Qed.
+Print Assumptions gen_uniform_real_distribution_is_model.
